@@ -87,7 +87,7 @@ func runC15(c *Ctx) {
 		bad := len(hooks) != 1 || len(hadLink) == 0
 		for _, e := range hadLink {
 			for _, h := range hooks {
-				if _, found := f.reach(Point{e.From.Succs[e.Succ], 0}, &searchOpts{AvoidNode: isUnhook}, func(pt Point, atExit bool) bool { return !atExit && pt == h }); found {
+				if _, found := f.reach(Point{e.From.Succs[e.Succ], 0}, &searchOpts{AvoidNode: isUnhook}, func(pt Point, atExit bool) bool { return !atExit && f.At(pt, h) }); found {
 					bad = true
 				}
 			}
